@@ -178,18 +178,35 @@ def _replace_returns(stmts, make):
 
 
 def _inline_new_helpers(tree, ref_funcs, done):
-    mod_funcs = [n for n in tree.body if isinstance(n, ast.FunctionDef)]
-    for helper in list(mod_funcs):
-        if helper.name in ref_funcs or helper.decorator_list:
+    # candidates: new module-level functions (called as `name(...)`) and new methods (called as `self.name(...)` inside their class)
+    cands = [(n, None, tree.body) for n in tree.body if isinstance(n, ast.FunctionDef)]
+    for cls in [n for n in ast.walk(tree) if isinstance(n, ast.ClassDef)]:
+        cq = None
+        for q, f in functions_of(tree):
+            pass
+        cands += [(n, cls, cls.body) for n in cls.body if isinstance(n, ast.FunctionDef)]
+    quals = {id(f): q for q, f in functions_of(tree)}
+    for helper, cls, home in cands:
+        if quals.get(id(helper)) in ref_funcs or helper.decorator_list:
             continue
         a = helper.args
         if a.vararg or a.kwarg or a.kwonlyargs or a.posonlyargs:
+            continue
+        if cls is not None and (not a.args or a.args[0].arg != 'self'):
             continue
         if any(isinstance(n, (ast.Yield, ast.YieldFrom, ast.Await, ast.Global, ast.Nonlocal)) for n in _own(helper)):
             continue
         if any(isinstance(n, FUNC + (ast.Lambda, ast.ClassDef)) for n in _own(helper)):
             continue
-        refs = [n for n in ast.walk(tree) if isinstance(n, ast.Name) and n.id == helper.name]
+        if cls is None:
+            refs = [n for n in ast.walk(tree) if isinstance(n, ast.Name) and n.id == helper.name]
+        else:
+            # every mention of the attribute name in the module counts (other classes may call it through an instance: leave it then)
+            refs = [n for n in ast.walk(tree) if isinstance(n, ast.Attribute) and n.attr == helper.name]
+            if len(refs) == 1 and not (isinstance(refs[0].value, ast.Name) and refs[0].value.id == 'self' and any(x is refs[0] for x in ast.walk(cls))):
+                continue
+            if any(isinstance(n, ast.Constant) and n.value == helper.name for n in ast.walk(tree)):
+                continue        # reached reflectively (getattr by name)
         if len(refs) != 1:
             continue
         # the one reference must be the callee of a call that is a whole statement value inside another function
@@ -220,6 +237,10 @@ def _inline_new_helpers(tree, ref_funcs, done):
             continue
         caller, lst, i, stmt, call = site
         params = [x.arg for x in a.args]
+        if cls is not None:
+            params = params[1:]             # `self` of the helper is the caller's `self`
+            if not (caller.args.args and caller.args.args[0].arg == 'self'):
+                continue
         if len(call.args) + len(call.keywords) != len(params) or any(k.arg is None for k in call.keywords) or \
                 any(isinstance(x, ast.Starred) for x in call.args):
             continue            # defaults in play: leave it
@@ -272,6 +293,8 @@ def _inline_new_helpers(tree, ref_funcs, done):
             def make(value, stmt=stmt):
                 v = value if value is not None else ast.Constant(value=None)
                 if isinstance(stmt, ast.Assign):
+                    if ast.unparse(stmt.targets[0]) == ast.unparse(v):
+                        return [ast.Break()]        # `x = x`: the value is already where it belongs
                     return [ast.Assign(targets=[copy.deepcopy(stmt.targets[0])], value=v), ast.Break()]
                 return [ast.Expr(value=v), ast.Break()]
             inner = _replace_returns(body, make)
@@ -286,12 +309,22 @@ def _inline_new_helpers(tree, ref_funcs, done):
                     ast.copy_location(x, stmt)
             ast.fix_missing_locations(n)
         lst[i:i + 1] = new
-        tree.body.remove(helper)
+        home.remove(helper)
         done.append((caller.name, helper.name, '<new helper inlined into its only caller>'))
 
 
 # ------------------------------------------------------------------------------------------------ A: new temporaries
-_IMPURE = (ast.Call, ast.Await, ast.Yield, ast.YieldFrom, ast.NamedExpr, ast.ListComp, ast.SetComp, ast.DictComp, ast.GeneratorExp, ast.Lambda)
+_IMPURE = (ast.Await, ast.Yield, ast.YieldFrom, ast.NamedExpr, ast.ListComp, ast.SetComp, ast.DictComp, ast.GeneratorExp, ast.Lambda)
+_PURE_CALLS = {'str', 'len', 'int', 'float', 'bool', 'repr', 'tuple', 'frozenset', 'isinstance', 'type', 'id'}
+
+
+def _is_pure(e):
+    for x in ast.walk(e):
+        if isinstance(x, _IMPURE):
+            return False
+        if isinstance(x, ast.Call) and not (isinstance(x.func, ast.Name) and x.func.id in _PURE_CALLS and not x.keywords):
+            return False
+    return True
 
 
 def _blocks(func):
@@ -334,15 +367,21 @@ def _inline_new_temps(func, known, done, qual):
                 if not (isinstance(s, ast.Assign) and len(s.targets) == 1 and isinstance(s.targets[0], ast.Name)):
                     continue
                 nm = s.targets[0].id
-                if nm in known or nm in params or len(stores.get(nm, [])) != 1 or not loads.get(nm):
+                if nm in known or nm in params or len(stores.get(nm, [])) != 1:
                     continue
                 if any(isinstance(x, (ast.Global, ast.Nonlocal)) and nm in x.names for x in _own(func)):
                     continue
-                # nested functions reading the name: leave it
-                if any(isinstance(x, ast.Name) and x.id == nm for f2 in _own(func) if isinstance(f2, FUNC + (ast.Lambda,)) for x in ast.walk(f2)):
+                pure = _is_pure(s.value)
+                # nested functions reading the name (closure): only for a pure value whose names are never re-bound in this function
+                nested_uses = [x for f2 in _own(func) if isinstance(f2, FUNC + (ast.Lambda,)) for x in ast.walk(f2) if isinstance(x, ast.Name) and x.id == nm]
+                if nested_uses:
+                    reads0 = {x.id for x in ast.walk(s.value) if isinstance(x, ast.Name)}
+                    if not pure or any(isinstance(x.ctx, (ast.Store, ast.Del)) for x in nested_uses) or \
+                            any(any(st.lineno > s.lineno for st in stores.get(r, []) if hasattr(st, 'lineno')) for r in reads0):
+                        continue
+                uses = loads.get(nm, []) + [x for x in nested_uses if isinstance(x.ctx, ast.Load)]
+                if not uses:
                     continue
-                uses = loads[nm]
-                pure = not any(isinstance(x, _IMPURE) for x in ast.walk(s.value))
                 last_use = max(u.lineno for u in uses)
                 first_use = min(u.lineno for u in uses)
                 if first_use < s.lineno:
@@ -351,8 +390,16 @@ def _inline_new_temps(func, known, done, qual):
                     # the names the expression reads must not be re-bound between the binding and the last use
                     reads = {x.id for x in ast.walk(s.value) if isinstance(x, ast.Name)}
                     rebound = any(st.lineno > s.lineno and st.lineno <= last_use for r in reads for st in stores.get(r, []) if hasattr(st, 'lineno'))
-                    # attribute stores on what it reads (self.x = ...) between: be careful
                     if rebound:
+                        continue
+                    # ... and no attribute/item it reads may be stored to anywhere in the function (`old = sys.path; sys.path = new; ...;
+                    # sys.path = old` must keep its temporary)
+                    read_places = {ast.unparse(x) for x in ast.walk(s.value) if isinstance(x, (ast.Attribute, ast.Subscript))}
+                    stored_places = {ast.unparse(t) for n_ in _own(func) if isinstance(n_, (ast.Assign, ast.AugAssign, ast.AnnAssign, ast.Delete))
+                                     for t in (n_.targets if isinstance(n_, (ast.Assign, ast.Delete)) else [n_.target])
+                                     for t in ([t] + (list(t.elts) if isinstance(t, (ast.Tuple, ast.List)) else []))
+                                     if isinstance(t, (ast.Attribute, ast.Subscript))}
+                    if read_places & stored_places:
                         continue
                 else:
                     nxt = lst[i + 1] if i + 1 < len(lst) else None
@@ -371,7 +418,7 @@ def _inline_new_temps(func, known, done, qual):
                     for j, t in enumerate(st):
                         if t is s:
                             continue
-                        st[j] = sub.visit(t)
+                        st[j] = sub.visit(t)        # NodeTransformer descends into nested defs and lambdas as well
                 if sub.n:
                     lst.remove(s)
                     done.append((qual, nm, '<new temporary substituted at its %d use(s)>' % sub.n))
